@@ -54,6 +54,7 @@ def run(ctx):
         ctx.run_rule("R8-toggle-use", c15.release_toggles, F, "R8-toggle-use")
         ctx.run_rule("R8-toggle-use", configured_toggle_readers, F, "R8-toggle-use")
         ctx.run_rule("R8-toggle-use", dax_only_if_negotiated, F, "R8-toggle-use")
+        ctx.run_rule("R8-toggle-use", nothing_negotiated_at_construction, F, "R8-toggle-use")
         if any(k.startswith("api::vfs::persist::") for k in F.fns):      # feature persist (absent in configuration D)
             ctx.run_rule("R1-options-roundtrip", c19.r1_options, F)
     finally:
@@ -435,6 +436,29 @@ def configured_toggle_readers(ctx, F, rule):
             ctx.check(rule, "configured-%s/%s/%s" % (mod, c, nm), nm in allowed,
                       "%s::%s reads the configured `%s` instead of the flag negotiated at INIT; only %s may read the configuration value" % (mod, nm, c, sorted(allowed)), loc=ob.loc())
         ctx.check(rule, "configured-%s/%s/init-reads" % (mod, c), "init" in got, "%s::init no longer consults the configured `%s`" % (mod, c))
+
+
+def nothing_negotiated_at_construction(ctx, F, rule):
+    """Before INIT nothing is negotiated: the constructors start every negotiable runtime flag at false."""
+    for adt, flds in (("passthrough::PassthroughFs", ("writeback", "no_open", "no_opendir", "killpriv_v2", "perfile_dax")),
+                      ("overlayfs::OverlayFs", ("writeback", "no_open", "no_opendir", "killpriv_v2", "perfile_dax"))):
+        b = F.method(adt, "new")
+        ctx.fn_seen(b)
+        v = vf.VF(b, inline_depth=0)
+        agg = None
+        for bb in sorted(b.reachable()):
+            for i, s_ in enumerate(b.stmts(bb)):
+                if s_[0] == "=" and s_[2][0] == "agg" and isinstance(s_[2][1], dict) and s_[2][1].get("adt") == adt:
+                    agg = dict(v.rvalue(s_[2], bb, i)[3])
+        tag = adt.rsplit("::", 1)[-1]
+        if not ctx.check(rule, "%s::new/literal" % tag, agg is not None, "%s::new no longer builds the filesystem with a struct literal" % tag, loc=b.loc()):
+            continue
+        for f in flds:
+            if f not in agg:
+                continue
+            t = vf.render(agg[f], b, short=True, vfx=v)
+            ctx.check(rule, "%s::new/%s-starts-false" % (tag, f), t in ("Atomic::new(0)", "AtomicBool::new(0)", "Atomic::new(false)") or t.endswith("::new(0)"),
+                      "%s::new starts the negotiated flag `%s` as `%s`; before INIT nothing is negotiated (false)" % (tag, f, t[:80]), loc=b.loc())
 
 
 def dax_only_if_negotiated(ctx, F, rule):
